@@ -705,13 +705,25 @@ func (c *c09Ctx) mutationCheck(w *c09Worker, hist []c09Op, m0 c09Model) int {
 					continue // key created by Append outside the alphabet
 				}
 				for _, newVal := range []int{3 /*nil*/, 1 /*y*/} {
-					for _, via := range []string{"tb.RawSet", "lua_reg", "tb.Remove(last)"} {
+					for _, via := range []string{"tb.RawSet", "lua_reg", "tb.Remove(last)", "tb.Remove(last)x2"} {
 						tb, m, ok := c.replay(w, hist, false)
 						if !ok {
 							return runs
 						}
 						if via == "tb.Remove(last)" && (newVal != 3 || tb.Len() == 0 || target != c09IntName(tb.Len())) {
 							continue // removing the last list element is the clear of t[#t], nothing else
+						}
+						// two removals in one step: the array part may shrink by two slots behind the key the
+						// traversal stands on
+						target2, cleared2BeforeVisit := "", false
+						if via == "tb.Remove(last)x2" {
+							if newVal != 3 || tb.Len() < 2 || target != c09IntName(tb.Len()) {
+								continue
+							}
+							target2 = c09IntName(tb.Len() - 1)
+							if _, ok := m[target2]; !ok {
+								continue
+							}
 						}
 						runs++
 						var visited [][2]lua.LValue
@@ -731,6 +743,17 @@ func (c *c09Ctx) mutationCheck(w *c09Worker, hist []c09Op, m0 c09Model) int {
 							}
 							if via == "tb.Remove(last)" {
 								tb.Remove(-1) // what table.remove(t) does: may shrink the array part under the traversal
+							} else if via == "tb.Remove(last)x2" {
+								seen2 := false
+								for _, p := range visited {
+									if c09Render(p[0]) == target2 {
+										seen2 = true
+									}
+								}
+								cleared2BeforeVisit = !seen2
+								tb.Remove(-1)
+								tb.Remove(-1)
+								delete(m, target2)
 							} else {
 								mutErr = w.applySet(tb, via, ki, newVal)
 							}
@@ -804,6 +827,9 @@ func (c *c09Ctx) mutationCheck(w *c09Worker, hist []c09Op, m0 c09Model) int {
 						for _, k := range present {
 							want := 1
 							if k == target && clearedBeforeVisit {
+								want = 0
+							}
+							if target2 != "" && k == target2 && cleared2BeforeVisit {
 								want = 0
 							}
 							if cnt[k] != want {
